@@ -96,6 +96,7 @@ class ExplorerScriptSsbDecompiler:
         self._output = ""
         self.indent = 0
         self._line_number = 1
+        self._jump_waiting_for_statement: int | None = None
         self.labels_already_printed = []
         self.labels_referenced = []
         self.smb = None
@@ -110,6 +111,7 @@ class ExplorerScriptSsbDecompiler:
         self.labels_already_printed = []
         self.labels_referenced = []
         self._line_number = 1
+        self._jump_waiting_for_statement = None
         self.smb = SourceMapBuilder()
 
         raw_routine_backup_ops = deepcopy(self._routine_ops)
@@ -192,6 +194,10 @@ class ExplorerScriptSsbDecompiler:
 
     def write_stmnt(self, stmnt: str, line: bool = True) -> None:
         """Write a simple single line statement"""
+        if stmnt != "}":
+            # Whatever statement is written now, a Jump op that was waiting for its statement has either just got it or is
+            # not written at all. (Closing a block is not a statement: the jump can follow after it.)
+            self._jump_waiting_for_statement = None
         if line:
             self.write_line()
         self._line_number += stmnt.count("\n")
@@ -215,12 +221,10 @@ class ExplorerScriptSsbDecompiler:
         # Depending on what the previous operation was, this has to be printed differently
         if not isinstance(previous_op, SsbLabelJump):
             # We need a jump now. We didn't have one but now we will.
-            self.labels_referenced.append(label_id)
-            self.write_stmnt(f"jump @label_{label_id};")
+            self._write_jump_stmnt(label_id)
         elif previous_op.get_marker() is None:
             # Normal jump, just print that
-            self.labels_referenced.append(label_id)
-            self.write_stmnt(f"jump @label_{label_id};")
+            self._write_jump_stmnt(label_id)
         elif isinstance(previous_op.get_marker(), ForeverContinue) or isinstance(
             previous_op.get_marker(), ForeverBreak
         ):
@@ -229,8 +233,22 @@ class ExplorerScriptSsbDecompiler:
             pass
         else:
             # Jump as part of a control structure
-            self.labels_referenced.append(label_id)
-            self.write_stmnt(f"jump @label_{label_id};")
+            self._write_jump_stmnt(label_id)
+
+    def _write_jump_stmnt(self, label_id: int) -> None:
+        if self._jump_waiting_for_statement is not None:
+            # This is the statement of that Jump op. Blocks may have been closed since the op was handled.
+            self.source_map_add_opcode(self._jump_waiting_for_statement)
+        self.labels_referenced.append(label_id)
+        self.write_stmnt(f"jump @label_{label_id};")
+
+    def source_map_add_jump_opcode(self, op_offset: int) -> None:
+        """
+        For a plain Jump op: its statement is written by the handler of the label it jumps to, if at all, and possibly
+        only after the current block has been closed. Until then the entry stands where the jump would be written now.
+        """
+        self.source_map_add_opcode(op_offset)
+        self._jump_waiting_for_statement = op_offset
 
     def source_map_add_opcode(self, op_offset: int, continues_line: bool = False) -> None:
         """
